@@ -214,4 +214,11 @@ def suite_two_clients(ctx):
     return c15.suite_two_clients(ctx)
 
 
-SUITES = [suite_call, suite_reentrant, suite_blocks, suite_two_clients]
+def suite_callw(ctx):
+    """whole client calls of every service family, delivered by the decorator under a random switch setting, against the model's `deliver ∘ callWithI`
+    (udsdrv callw sw=…): the correspondence `Props/C08Call.callWith_switch_independent` rests on; metamorphic oracle against the same call with all switches on"""
+    from .. import callw
+    return callw.suite_callw(ctx, 'C08')
+
+
+SUITES = [suite_call, suite_callw, suite_reentrant, suite_blocks, suite_two_clients]
